@@ -262,7 +262,7 @@ Section Renaming.
     (params_only p = true -> params_only p' = true) /\
     (catch_params_only p = true -> catch_params_only p' = true) /\
     (core_d p = true -> core_d p' = true) /\ (pcore_d p = true -> pcore_d p' = true) /\ (core p = true -> core p' = true) /\
-    (core_x p = true -> core_x p' = true) /\ (pcore_x p = true -> pcore_x p' = true).
+    (core_x p = true -> core_x p' = true) /\ (forall c, hcore_x c p = true -> hcore_x c p' = true).
 
   Definition rr_stmt (p : prog) : Prop :=
     forall e fs cur ca n rest,
@@ -306,20 +306,20 @@ Section Renaming.
       intros HDt. specialize (G HDt).
       destruct (rename_with (map newname r ++ rest) k) as [k' l']. destruct G as (E0 & R & Hl & Hm).
       split; [exact E0|]. destruct R as (R1 & R2 & R3 & R4 & R5 & R6 & R7 & R8 & R9 & R10 & R11 & R12 & R13).
-      unfold RR. cbn [resolve lexdecls vardecls headdecls allnames default_names params_only catch_params_only core_d pcore_d core core_x pcore_x map].
+      unfold RR. cbn [resolve lexdecls vardecls headdecls allnames default_names params_only catch_params_only core_d pcore_d core core_x hcore_x map].
       rewrite R1, Hl, R5. repeat apply conj; try reflexivity; try assumption; try discriminate.
       + intros y [<-|Hy].
         * exists (lookup e x). split; [left; reflexivity|]. split; [reflexivity|]. left. symmetry. apply tname_lookup.
         * destruct (R6 y Hy) as (t & T1 & T2 & T3). exists t. split; [right; exact T1|]. split; [exact T2|right; exact T3].
       + intros H. apply andb_true_iff in H. destruct H as [H1 H2]. rewrite (Hm H1), (R10 H2). reflexivity.
-      + intros H. apply andb_true_iff in H. destruct H as [H1 H2]. rewrite (Hm H1), (R13 H2). reflexivity.
+      + intros c0 H. apply andb_true_iff in H. destruct H as [H1 H2]. rewrite (R13 c0 H2). destruct c0; [reflexivity|]. rewrite (Hm H1). reflexivity.
     - intros e fs cur ca n rest Hok HD Hinc. cbn [resolve allnames] in *.
       specialize (G e fs cur ca n rest Hok HD Hinc).
       destruct (resolve e fs cur ca n k) as [r n1]. cbn [fst snd map app rename_with hd tl] in *.
       intros HDt. specialize (G HDt).
       destruct (rename_with (map newname r ++ rest) k) as [k' l']. destruct G as (E0 & R & Hl & Hm).
       split; [exact E0|]. destruct R as (R1 & R2 & R3 & R4 & R5 & R6 & R7 & R8 & R9 & R10 & R11 & R12 & R13).
-      unfold RR. cbn [resolve lexdecls vardecls headdecls allnames default_names params_only catch_params_only core_d pcore_d core core_x pcore_x map].
+      unfold RR. cbn [resolve lexdecls vardecls headdecls allnames default_names params_only catch_params_only core_d pcore_d core core_x hcore_x map].
       rewrite R1, Hl, R5. repeat apply conj; try reflexivity; try assumption; try discriminate.
       intros y [<-|Hy].
       * exists (lookup e x). split; [left; reflexivity|]. split; [reflexivity|]. left. symmetry. apply tname_lookup.
@@ -334,11 +334,12 @@ Section Renaming.
     intros HDt. inversion HDt as [|? ? _ HDr]; subst. specialize (IH HDr).
     destruct (rename_with (map newname r ++ rest) k) as [k' l']. destruct IH as (E0 & R).
     split; [exact E0|]. destruct R as (R1 & R2 & R3 & R4 & R5 & R6 & R7 & R8 & R9 & R10 & R11 & R12 & R13).
-    unfold RR. cbn [resolve lexdecls vardecls headdecls allnames default_names params_only catch_params_only core_d pcore_d core core_x pcore_x map].
+    unfold RR. cbn [resolve lexdecls vardecls headdecls allnames default_names params_only catch_params_only core_d pcore_d core core_x hcore_x map].
     rewrite R1, R2, R3, R4, R5.
     destruct d; cbn [is_var is_lex newname retarget app map];
       (repeat apply conj; try reflexivity; try assumption; try discriminate;
-       try (intros y Hy; destruct (R6 y Hy) as (t & T1 & T2 & T3); exists t; (split; [right; exact T1|]); split; [exact T2|exact T3])).
+       try (intros y Hy; destruct (R6 y Hy) as (t & T1 & T2 & T3); exists t; (split; [right; exact T1|]); split; [exact T2|exact T3]);
+       try (intros c0; destruct c0; solve [discriminate|apply R13])).
   Qed.
 
   Lemma rr_block b k : rr_stmt b -> rr_stmt k -> rr_stmt (Block b k).
@@ -366,7 +367,7 @@ Section Renaming.
     destruct B as (B1 & B2 & B3 & B4 & B5 & B6 & B7 & B8 & B9 & B10 & B11 & B12 & B13).
     destruct K as (K1 & K2 & K3 & K4 & K5 & K6 & K7 & K8 & K9 & K10 & K11 & K12 & K13).
     cbn [ren_env map ren_entry] in B1. rewrite <- B2 in B1. fold (ren_env e) in B1.
-    unfold RR. cbn [resolve lexdecls vardecls headdecls allnames default_names params_only catch_params_only core_d pcore_d core core_x pcore_x].
+    unfold RR. cbn [resolve lexdecls vardecls headdecls allnames default_names params_only catch_params_only core_d pcore_d core core_x hcore_x].
     rewrite B1, K1, K2, B3, K3, K4, B5, K5, <- !map_app.
     repeat apply conj; try reflexivity; try discriminate.
     - intros y Hy. apply in_app_iff in Hy. destruct Hy as [Hy|Hy].
@@ -511,7 +512,7 @@ Section Renaming.
       assert (Hdn : DN (rp ++ rb ++ rk) (allnames ps ++ allnames b ++ default_names k) (allnames ps' ++ allnames b' ++ default_names k')).
       { rewrite P5, B5, <- Hnp, <- Hnb. apply DN_app; [apply DN_names|]. apply DN_app; [apply DN_names|exact K6]. }
       split.
-      - unfold RR. cbn [resolve lexdecls vardecls headdecls allnames default_names params_only catch_params_only core_d pcore_d core core_x pcore_x app].
+      - unfold RR. cbn [resolve lexdecls vardecls headdecls allnames default_names params_only catch_params_only core_d pcore_d core core_x hcore_x app].
         repeat apply conj; try discriminate.
         + rewrite C1, C2, K1, !map_app. reflexivity.
         + exact K2.
@@ -528,11 +529,11 @@ Section Renaming.
           rewrite (P7 H1), (B11 H2), (K11 H3). reflexivity.
         + intros H. apply andb_true_iff in H. destruct H as [H _]. apply andb_true_iff in H. destruct H as [H H4].
           apply andb_true_iff in H. destruct H as [H1 H3].
-          rewrite (P13 H1), (B12 H3), (K12 H4). reflexivity.
-        + intros H. apply andb_true_iff in H. destruct H as [H _]. apply andb_true_iff in H. destruct H as [H H5].
+          rewrite (P13 false H1), (B12 H3), (K12 H4). reflexivity.
+        + intros c0 H. apply andb_true_iff in H. destruct H as [H _]. apply andb_true_iff in H. destruct H as [H H5].
           apply andb_true_iff in H. destruct H as [H H4]. apply andb_true_iff in H. destruct H as [H1 H3].
-          rewrite (P13 H1), (B12 H3), (C4 H4), (K13 H5). reflexivity.
-      - unfold RR. cbn [resolve lexdecls vardecls headdecls allnames default_names params_only catch_params_only core_d pcore_d core core_x pcore_x app].
+          rewrite (P13 false H1), (B12 H3), (K13 c0 H5). destruct c0; [reflexivity|]. rewrite (C4 H4). reflexivity.
+      - unfold RR. cbn [resolve lexdecls vardecls headdecls allnames default_names params_only catch_params_only core_d pcore_d core core_x hcore_x app].
         repeat apply conj; try discriminate.
         + rewrite C1, C2, K1, !map_app. reflexivity.
         + exact K2.
@@ -549,10 +550,10 @@ Section Renaming.
           rewrite (P7 H1), (B11 H2), (K11 H3). reflexivity.
         + intros H. apply andb_true_iff in H. destruct H as [H H4].
           apply andb_true_iff in H. destruct H as [H1 H3].
-          rewrite (P13 H1), (B12 H3), (K12 H4). reflexivity.
-        + intros H. apply andb_true_iff in H. destruct H as [H H5].
+          rewrite (P13 false H1), (B12 H3), (K12 H4). reflexivity.
+        + intros c0 H. apply andb_true_iff in H. destruct H as [H H5].
           apply andb_true_iff in H. destruct H as [H H4]. apply andb_true_iff in H. destruct H as [H1' H3].
-          rewrite (P13 H1'), (B12 H3), (C4 H4), (K13 H5). reflexivity.
+          rewrite (P13 false H1'), (B12 H3), (K13 c0 H5). destruct c0; [reflexivity|]. rewrite (C4 H4). reflexivity.
     }
     split.
     - intros e fs cur ca n rest Hok HD Hinc. cbn [allnames app] in Hinc. cbn [resolve].
@@ -594,7 +595,7 @@ Section Renaming.
     destruct B as (B1 & B2 & B3 & B4 & B5 & B6 & B7 & B8 & B9 & B10 & B11 & B12 & B13).
     destruct K as (K1 & K2 & K3 & K4 & K5 & K6 & K7 & K8 & K9 & K10 & K11 & K12 & K13).
     cbn [ren_env map ren_entry] in C1, C2. fold (ren_env e) in C1, C2.
-    unfold RR. cbn [resolve lexdecls vardecls headdecls allnames default_names params_only catch_params_only core_d pcore_d core core_x pcore_x app].
+    unfold RR. cbn [resolve lexdecls vardecls headdecls allnames default_names params_only catch_params_only core_d pcore_d core core_x hcore_x app].
     repeat apply conj; try discriminate.
     - rewrite C1, C2, K1. cbn [map retarget app]. rewrite !map_app. reflexivity.
     - exact K2.
@@ -607,19 +608,21 @@ Section Renaming.
       rewrite P5, B5, <- Hnp, <- Hnb. apply DN_app; [apply DN_names|]. apply DN_app; [apply DN_names|exact K6].
     - intros H. apply andb_true_iff in H. destruct H as [H H5]. apply andb_true_iff in H. destruct H as [H H4].
       apply andb_true_iff in H. destruct H as [H1' H3].
-      rewrite (P13 H1'), (B12 H3), (K12 H4). cbn [andb]. apply negb_true_iff. apply mem_not_in.
+      rewrite (P13 false H1'), (B12 H3), (K12 H4). cbn [andb]. apply negb_true_iff. apply mem_not_in.
       rewrite P4, B3, B2, <- !map_app.
       apply (newname_notin (TBind n true g)); [exact Dg|apply Hinc; left; reflexivity|exact C5|].
       apply negb_true_iff in H5. apply mem_not_in. exact H5.
-    - intros H. apply andb_true_iff in H. destruct H as [H H6]. apply andb_true_iff in H. destruct H as [H H5].
+    - intros c0 H. apply andb_true_iff in H. destruct H as [H H6]. apply andb_true_iff in H. destruct H as [H H5].
       apply andb_true_iff in H. destruct H as [H H4]. apply andb_true_iff in H. destruct H as [H1' H3].
       apply andb_true_iff in H6. destruct H6 as [H6 H7].
-      rewrite (P13 H1'), (B12 H3), (C4 H4), (K13 H5). cbn [andb]. apply andb_true_iff. split; apply negb_true_iff; apply mem_not_in.
-      + rewrite P4, B3, B2, <- !map_app.
+      assert (E6 : negb (mem (f n true g) (headdecls ps' ++ vardecls b' ++ lexdecls b')) = true).
+      { apply negb_true_iff. apply mem_not_in. rewrite P4, B3, B2, <- !map_app.
         apply (newname_notin (TBind n true g)); [exact Dg|apply Hinc; left; reflexivity|exact C5|].
-        apply negb_true_iff in H6. apply mem_not_in. exact H6.
-      + rewrite K4. apply (newname_notin (TBind n true g)); [exact Dg|apply Hinc; left; reflexivity|exact C6|].
-        apply negb_true_iff in H7. apply mem_not_in. exact H7.
+        apply negb_true_iff in H6. apply mem_not_in. exact H6. }
+      rewrite (P13 false H1'), (B12 H3), (K13 c0 H5), E6. destruct c0; [reflexivity|]. rewrite (C4 H4). cbn [andb].
+      apply negb_true_iff. apply mem_not_in.
+      rewrite K4. apply (newname_notin (TBind n true g)); [exact Dg|apply Hinc; left; reflexivity|exact C6|].
+      apply negb_true_iff in H7. apply mem_not_in. exact H7.
   Qed.
 
   Lemma is_nil_map (g : Z -> Z) l : is_nil (map g l) = is_nil l.
@@ -650,7 +653,7 @@ Section Renaming.
       destruct M as (M1 & M2 & M3 & M4 & M5 & M6 & M7 & M8 & M9 & M10 & M11 & M12 & M13).
       destruct K as (K1 & K2 & K3 & K4 & K5 & K6 & K7 & K8 & K9 & K10 & K11 & K12 & K13).
       cbn [ren_env map ren_entry] in M1. fold (ren_env e) in M1.
-      unfold RR. cbn [resolve lexdecls vardecls headdecls allnames default_names params_only catch_params_only core_d pcore_d core core_x pcore_x app].
+      unfold RR. cbn [resolve lexdecls vardecls headdecls allnames default_names params_only catch_params_only core_d pcore_d core core_x hcore_x app].
       repeat apply conj; try discriminate.
       + rewrite M1, K1. cbn [map retarget app]. rewrite !map_app. reflexivity.
       + exact K2.
@@ -679,7 +682,7 @@ Section Renaming.
       split; [exact K0|].
       destruct M as (M1 & M2 & M3 & M4 & M5 & M6 & M7 & M8 & M9 & M10 & M11 & M12 & M13).
       destruct K as (K1 & K2 & K3 & K4 & K5 & K6 & K7 & K8 & K9 & K10 & K11 & K12 & K13).
-      unfold RR. cbn [resolve lexdecls vardecls headdecls allnames default_names params_only catch_params_only core_d pcore_d core core_x pcore_x app].
+      unfold RR. cbn [resolve lexdecls vardecls headdecls allnames default_names params_only catch_params_only core_d pcore_d core core_x hcore_x app].
       repeat apply conj; try discriminate.
       + rewrite M1, K1, !map_app. reflexivity.
       + exact K2.
@@ -699,9 +702,9 @@ Section Renaming.
         * rewrite Hnm. exact (disjointb_spec _ _ H4).
       + intros H. apply andb_true_iff in H. destruct H as [H H4]. apply andb_true_iff in H. destruct H as [H H3].
         apply andb_true_iff in H. destruct H as [H1 H2]. rewrite M2, M3, !is_nil_map. rewrite (M12 H1), H2, H3, (K12 H4). reflexivity.
-      + intros H. apply andb_true_iff in H. destruct H as [H H5]. apply andb_true_iff in H. destruct H as [H H4].
+      + intros c0 H. apply andb_true_iff in H. destruct H as [H H5]. apply andb_true_iff in H. destruct H as [H H4].
         apply andb_true_iff in H. destruct H as [H H3]. apply andb_true_iff in H. destruct H as [H1 H2].
-        rewrite M2, M3, !is_nil_map. rewrite (M12 H1), H2, H3, (K13 H5). rewrite M5, K4.
+        rewrite M2, M3, !is_nil_map. rewrite (M12 H1), H2, H3, (K13 c0 H5). destruct c0; [reflexivity|]. rewrite M5, K4.
         rewrite disj_newname; [reflexivity|exact HDm| | |].
         * rewrite Hnm. exact (incl_app_l _ _ _ Hinc).
         * intros x Hx. apply (Dt_in rk); [exact HDk|apply Hhk; exact Hx].
@@ -736,7 +739,7 @@ Section Renaming.
     destruct B as (B1 & B2 & B3 & B4 & B5 & B6 & B7 & B8 & B9 & B10 & B11 & B12 & B13).
     destruct K as (K1 & K2 & K3 & K4 & K5 & K6 & K7 & K8 & K9 & K10 & K11 & K12 & K13).
     cbn [ren_env map ren_entry app] in B1. fold (ren_env e) in B1. rewrite map_app in B1. rewrite <- B2, <- B3 in B1.
-    unfold RR. cbn [resolve lexdecls vardecls headdecls allnames default_names params_only catch_params_only core_d pcore_d core core_x pcore_x app].
+    unfold RR. cbn [resolve lexdecls vardecls headdecls allnames default_names params_only catch_params_only core_d pcore_d core core_x hcore_x app].
     repeat apply conj; try discriminate.
     - rewrite B1, K1. cbn [map retarget app]. rewrite !map_app. reflexivity.
     - exact K2.
@@ -768,7 +771,7 @@ Section Renaming.
     split; [exact K0|].
     destruct H as (H1 & H2 & H3 & H4 & H5 & H6 & H7 & H8 & H9 & H10 & H11 & H12 & H13).
     destruct K as (K1 & K2 & K3 & K4 & K5 & K6 & K7 & K8 & K9 & K10 & K11 & K12 & K13).
-    unfold RR. cbn [resolve lexdecls vardecls headdecls allnames default_names params_only catch_params_only core_d pcore_d core core_x pcore_x app].
+    unfold RR. cbn [resolve lexdecls vardecls headdecls allnames default_names params_only catch_params_only core_d pcore_d core core_x hcore_x app].
     repeat apply conj; try discriminate.
     - rewrite H1, K1, !map_app. reflexivity.
     - exact K2.
@@ -833,7 +836,7 @@ Section Renaming.
     destruct B as (B1 & B2 & B3 & B4 & B5 & B6 & B7 & B8 & B9 & B10 & B11 & B12 & B13).
     destruct K as (K1 & K2 & K3 & K4 & K5 & K6 & K7 & K8 & K9 & K10 & K11 & K12 & K13).
     cbn [ren_env map ren_entry] in H1, B1. fold (ren_env e) in H1, B1. rewrite <- H2 in H1. rewrite <- H2, <- B2 in B1.
-    unfold RR. cbn [resolve lexdecls vardecls headdecls allnames default_names params_only catch_params_only core_d pcore_d core core_x pcore_x app].
+    unfold RR. cbn [resolve lexdecls vardecls headdecls allnames default_names params_only catch_params_only core_d pcore_d core core_x hcore_x app].
     repeat apply conj; try discriminate.
     - rewrite H1, B1, K1, !map_app. reflexivity.
     - exact K2.
@@ -846,10 +849,10 @@ Section Renaming.
       apply andb_true_iff in Hc. destruct Hc as [Hc C3]. apply andb_true_iff in Hc. destruct Hc as [C1 C2].
       pose proof (vardecls_targets h ((n, true, lexdecls h) :: e) fs n true (S n)) as Hvh. rewrite Eh in Hvh. cbn [fst] in Hvh.
       rewrite (H12 C1), (B12 C2), (K12 C3). cbn [andb]. apply andb_true_iff. split.
-      + rewrite H5, B2. apply disj_newname; [exact HDh| | |].
-        * rewrite Hnh. exact (incl_app_l _ _ _ Hinc).
+      + rewrite H2, B2. apply disj_map_f_early.
+        * intros x Hx. apply (Dt_in rh); [exact HDh|apply Hlh; exact Hx].
         * intros x Hx. apply (Dt_in rb); [exact HDb|apply Hlb; exact Hx].
-        * rewrite Hnh. exact (disjointb_spec _ _ C4).
+        * exact (disjointb_spec _ _ C4).
       + rewrite H3, H2, B2, disjointb_app_r. pose proof (disjointb_spec _ _ C5) as C5'.
         apply andb_true_iff. split; apply disj_map_f_early.
         * intros x Hx. apply (Dt_in rh); [exact HDh|apply Hvh; exact Hx].
@@ -912,7 +915,7 @@ Section Renaming.
     assert (Hdisj : disjointb (headdecls h) (vardecls b) = true -> disjointb (headdecls h') (vardecls b') = true).
     { intros Hd. rewrite H4, B3. apply disj_map_f; [exact Dhead| |exact (disjointb_spec _ _ Hd)].
       intros y Hy. apply (Dt_in rb); [exact HDb|apply Hvb; exact Hy]. }
-    unfold RR. cbn [resolve lexdecls vardecls headdecls allnames default_names params_only catch_params_only core_d pcore_d core core_x pcore_x app].
+    unfold RR. cbn [resolve lexdecls vardecls headdecls allnames default_names params_only catch_params_only core_d pcore_d core core_x hcore_x app].
     repeat apply conj; try discriminate.
     - rewrite H1, B1, K1, !map_app. reflexivity.
     - exact K2.
@@ -926,7 +929,7 @@ Section Renaming.
     - intros Hc. apply andb_true_iff in Hc. destruct Hc as [Hc C4]. apply andb_true_iff in Hc. destruct Hc as [Hc C3].
       apply andb_true_iff in Hc. destruct Hc as [C1 C2]. rewrite (H8 C1), (Hdisj C2), (B11 C3), (K11 C4). reflexivity.
     - intros Hc. apply andb_true_iff in Hc. destruct Hc as [Hc C4]. apply andb_true_iff in Hc. destruct Hc as [Hc C3].
-      apply andb_true_iff in Hc. destruct Hc as [C1 C2]. rewrite (H8 C1), (Hdisj C2), (B12 C3), (K12 C4). reflexivity.
+      apply andb_true_iff in Hc. destruct Hc as [C1 C2]. rewrite (H13 true C1), (Hdisj C2), (B12 C3), (K12 C4). reflexivity.
   Qed.
 
   (* renaming every occurrence after its declaration, with fresh and distinct names, commutes with the declarative
